@@ -94,6 +94,7 @@ impl Check for C09 {
             // be parked in an inline answer and then legitimately never sees an Alert or an EOF)
             // (not with "alert": a receive loop parked in an inline reply behind a stalled peer has read the
             // alert's bytes but not yet processed the frame — the session has not ended yet)
+            "stall_in_flush": g.chance(40),
             "stall_after": if cause_kind != "alert" && g.chance(if matches!(cause_kind, "owner_close" | "hb_giveup") { 45 } else { 25 }) { json!(g.range(0, 2_000)) } else { Value::Null },
         })
     }
@@ -124,6 +125,9 @@ impl Check for C09 {
             let drain_delay = plan["drain_delay_us"].as_u64().unwrap_or(0);
             let stall_after = plan["stall_after"].as_u64();
             let stall_ctl = c_out.clone();
+            // where the parked writer sits: in `write` (the transport takes nothing more) or in `flush` (a TLS
+            // layer / buffered writer took the bytes and cannot pass them on)
+            let stall_in_flush = plan["stall_in_flush"].as_bool().unwrap_or(false);
             anytls_simnet::spawn(async move {
                 let mut b = vec![0u8; 2048];
                 let mut seen = 0u64;
@@ -131,8 +135,13 @@ impl Check for C09 {
                     if let Some(sa) = stall_after {
                         if seen >= sa {
                             // from now on nothing is read any more; a little more fits into the transport
-                            stall_ctl.clamp_capacity(64);
-                            anytls_simnet::world::fault_fired("transport.peer_stall_unbounded");
+                            if stall_in_flush {
+                                stall_ctl.set_flush_gate(true);
+                                anytls_simnet::world::fault_fired("transport.peer_stall_parks_flush");
+                            } else {
+                                stall_ctl.clamp_capacity(64);
+                                anytls_simnet::world::fault_fired("transport.peer_stall_unbounded");
+                            }
                             std::future::pending::<()>().await;
                         }
                     }
@@ -520,7 +529,7 @@ impl Check for C09 {
         out
     }
     fn rule(&self) -> &'static str {
-        "one case = a real client or server Session with 0-4 blocked stream readers, 0-3 pending opens (client), 0-3 concurrently working tasks (direct / queued / control writes, stream opens on the client), fresh (buffering) or established, against a scripted peer that drains, drains slowly, or (every cause but Alert) stops reading after a seeded number of bytes so that a write is parked inside the transport when the session dies; exactly one termination cause (clean EOF, reset, unexpected-EOF error, write error, flush error at a seeded byte offset inside or between frames; Alert frame; owner close() at a seeded instant; heartbeat give-up) with shutdown completing / failing / hanging; oracle at t0+2s and t0+4s of virtual time; non-trivial = the planned cause actually fired AND at least one reader, pending open or write operation existed; distinct = distinct (plan hash, poll-order fingerprint)"
+        "one case = a real client or server Session with 0-4 blocked stream readers, 0-3 pending opens (client), 0-3 concurrently working tasks (direct / queued / control writes, stream opens on the client), fresh (buffering) or established, against a scripted peer that drains, drains slowly, or (every cause but Alert) stops reading after a seeded number of bytes so that a write is parked inside the transport — in `write`, or in `flush` as behind a TLS layer that took the bytes — when the session dies; exactly one termination cause (clean EOF, reset, unexpected-EOF error, write error, flush error at a seeded byte offset inside or between frames; Alert frame; owner close() at a seeded instant; heartbeat give-up) with shutdown completing / failing / hanging; oracle at t0+2s and t0+4s of virtual time; non-trivial = the planned cause actually fired AND at least one reader, pending open or write operation existed; distinct = distinct (plan hash, poll-order fingerprint)"
     }
     fn real_components(&self) -> Vec<&'static str> {
         vec!["Session (client or server): recv_loop, handle_frame, write paths, close, handle_io_error, heartbeat task, process_stream_data", "Stream / StreamReader", "PaddingFactory", "FrameCodec"]
